@@ -274,3 +274,16 @@ func (w *World) SeedRunning(leaves []*Leaf) error {
 func JoinLines(ls []string) string { return strings.Join(ls, "\n") }
 
 var _ = target.TargetStatusConnected
+
+// WriteStore writes updates directly into a store through the undecorated cache (test data seeding).
+func (w *World) WriteStore(store cachepb.Store, upds ...*cache.Update) error {
+	return w.RawCache.Modify(context.Background(), DSName, &cache.Opts{Store: store}, nil, upds)
+}
+
+func (w *World) WriteStoreNamed(store string, u interface{}) error {
+	st := cachepb.Store_CONFIG
+	if store == "STATE" {
+		st = cachepb.Store_STATE
+	}
+	return w.WriteStore(st, u.(*cache.Update))
+}
